@@ -5,7 +5,7 @@ Every run re-reads /repo/src, emits one Lean definition per function, generic in
 rewrites FFVerif/Gen/*.lean only when the text changed.  Anything outside the accepted subset raises
 Unsupported: a broken tie, reported by the check, never skipped silently.
 
-Accepted subset: straight-line assignments (SSA), `if c: x = e`, statically decided `if flag:` on a
+Accepted subset: straight-line assignments (SSA), `x = float( x )` (identity), `if c: x = e`, statically decided `if flag:` on a
 parameter fixed by the caller (normalized=..., tcat=..., k=...), early return, nested defs whose body
 is assignments + return, dict-literal lookup by a fixed key, 2-vectors, np.power/exp/log/sqrt/pi,
 special.gamma, np.mean of a 2-vector, max.  `raise ValueError` guards become the `_ok` predicate;
@@ -203,6 +203,14 @@ class Fn:
                 if isinstance(v, ast.Call) and ast.unparse(v.func) == 'np.array' and isinstance(v.args[0], ast.Name) \
                         and v.args[0].id in self.vecs:
                     return
+                # `x = float( x )`: conversion of a real scalar to binary64, the identity in the model (the scalar type of the model
+                # is the reals / Float already); what it is there for - narrow numpy integer arguments - is exercised by the
+                # narrow-integer stream of the check.  A fixed parameter keeps its value.
+                if isinstance(v, ast.Call) and ast.unparse(v.func) == 'float' and len(v.args) == 1 and not v.keywords \
+                        and isinstance(v.args[0], ast.Name) and v.args[0].id == t.id:
+                    if t.id in self.consts or t.id in self.ver:
+                        return
+                    raise Unsupported('float() of an unknown name ' + t.id)
                 if isinstance(v, ast.Dict):
                     self.tables[t.id] = ('dict', v)
                     return
